@@ -110,7 +110,8 @@ claim('C16', 'Lean 4 proofs (decoders invert the reference encoders: Intel HEX r
       'their addresses when every gap is announced by an .org (partial: the excluded class is the listed finding, with a proved '
       'counterexample); muted lines contribute to no format; listing rows map to address/byte pairs. Each run decodes the text the real '
       'CLI prints in all four formats with these decoders and compares with the address->byte map recovered from two real .bin runs, '
-      'and matches listing rows against the assembled statements.',
+      'matches listing rows against the assembled statements, and compares two windowed images (-s strictly inside a statement, '
+      'optional -e, three fill values) with the same map.',
       NOTE + ' The third-party intelhex writer is not modelled; its output is only decoded. Known finding D17 (minhex-gap-without-org) is reported as KNOWN-FINDING.')
 
 claim('C13', 'Lean 4 decision-logic proofs (first matching variant, specific before sets, disallowed skipped, stable rank order inside a set, registers never numeric) + differential correspondence',
@@ -147,7 +148,7 @@ claim('C18', 'Lean 4 proofs about the model scanner (whitespace / comment / blan
       'whitespace between them; comments, blank lines and indentation contribute nothing; mnemonics and registers are case-folded, other '
       'identifiers kept; a quoted literal is one token whatever it contains (; , : blanks, mnemonics); a label splits off as its own statement; a line is split where the next mnemonic starts; the program is the '
       'concatenation of its lines; the parser that feeds the layout model drops comments outside literals only, ignores surrounding '
-      'blanks, and reads `name: rest` as the label followed by the statements of `rest` (text_* theorems). The real code uses Python '
+      'blanks, and reads `name: rest` as the label followed by the statements of `rest`; rendering `.org N` / `.byte N` with any decimal numeral N, and any list of statements of a small fragment, and parsing the text again gives the statements back (text_* theorems). The real code uses Python '
       'regular expressions for this: they are modelled, not verified. The tie is '
       'checked on every run: each generated program is rendered in one canonical and three random layouts (all listed rewrites at '
       'random positions) and all must give the same image on the real CLI (the property itself), and the text re-rendered from the '
